@@ -1994,6 +1994,17 @@ def _transport_checks(rng, tier, cov):
                 yield {'case': dict(case, transport=name), 'impl': got if isinstance(got, str) else repr(got)[:300],
                        'spec': 'transport "%s" gives %s, the string transport %s' % (name, (repr(got)[:120]), repr(exp)[:120]), 'noshrink': True}
     cov['transport_comparisons'] = n
+    # the error exits of the dispatch (which exception class they raise is not part of the property; they must raise)
+    from sugar.core.fts import Feature, FeatureList
+    one = FeatureList([Feature('CDS', start=1, stop=5)])
+    for name, fn in (('read_fts(text of no format)', lambda: read_fts(io.StringIO('this is no feature file\n'))),
+                     ('FeatureList.write(handle) without fmt', lambda: one.write(io.StringIO())),
+                     ('tofmtstr(format without feature writer)', lambda: one.tofmtstr('genbank'))):
+        try:
+            fn()
+            yield {'case': {'_k': 'ctor', 'call': name}, 'impl': 'no error', 'spec': name + ' must raise', 'noshrink': True}
+        except Exception:
+            pass
 
 
 def extra_checks(rng, tier, cov):
@@ -2114,7 +2125,8 @@ LEVEL_NOTE = ('Proved (51 theorems, all closed under the global context): unquot
               'cells that contain the separator / quotes / line breaks - sugar has no code of its own for it -, dtype inference, NA words: '
               'such cells are outside the model\'s domain flag). '
               'Statement coverage of the modelled functions in the quick tier: 100 % except sugar/_io/tab/xsv.py lines 86-87 and 95-96 '
-              '(ImportError branches, unreachable with pandas installed). Trusted: Coq kernel/vm_compute, tools/gens/c02.py, the '
+              '(ImportError branches, unreachable with pandas installed) and sugar/_io/main.py lines 396 and 481 (a registered feature '
+              'format without reader / a binary feature format: there is none). Trusted: Coq kernel/vm_compute, tools/gens/c02.py, the '
               'correspondence harness, CPython str/int/float/dict/sorted, urllib quote/unquote on ASCII. Domain: ASCII fields; keys not '
               'starting with "_" and not a public Attr method name (open finding F20); scores are literals of the two shapes repr() gives a float '
               '(d+.d+, or d[.d+]e-XX / e+XX below 1e-4 and from 1e16 on; C02_canon_float_ok covers both) with at most 15 significant digits; that '
